@@ -102,6 +102,17 @@ chk('C07', 'translation_validation',
     'z3 equivalence of model functions before/after each refactoring (translation validation)',
     'DESIGN.md section 3 C07', 'E2')
 
+chk('C11', 'translation_validation',
+    'Partial claim (the algebra): for all collections of <=4 normal/joint-normal variables in <=3 blocks with symbolic '
+    'entries and all operation sequences of length <=2 over join (fill / named), unjoin, selection, subs, + the real '
+    'RandomVariables API is run and z3 decides, for all parameter values, that every variance, every covariance inside a '
+    'block and every entry of covariance_matrix equal the harness table of declared (co)variances; names, levels, block '
+    'membership and the order of uninvolved variables are compared structurally.',
+    'NOT claimed: nearest PSD repair, cov2corr/corr2cov, parameters_sdcorr, UCP scaling (numpy linear algebra on floats, '
+    'out of solver reach). Trusted: the harness table; sympy->z3 translation.',
+    'z3 entrywise equality of covariance structures after real RandomVariables operations',
+    'DESIGN.md section 3 C11', 'E2')
+
 NA['C14'] = ('derivations are vectorised pandas pipelines (groupby/cumsum/explode/query); CrossHair realises at the '
              'first DataFrame call and no faithful SMT semantics of pandas exists here; solver-generated datasets '
              'would be sampling')
